@@ -36,13 +36,13 @@ type scnResult struct {
 
 // nodeFinal is the oracle's view of one scripted node at the end.
 type nodeFinal struct {
-	ID        int
-	Honest    bool
-	Reachable bool // still connected and answering
-	TipIdx    int
-	Cum       *big.Int
+	ID              int
+	Honest          bool
+	Reachable       bool // still connected and answering
+	TipIdx          int
+	Cum             *big.Int
 	ClosedByService bool
-	Hist      []nodeEv
+	Hist            []nodeEv
 }
 
 var scnCounter int64
@@ -194,9 +194,9 @@ func oracleC06(r *rig, res *scnResult) {
 	sig, why := classifyC06(r, res, fs, best, t)
 	got := r.tree.name(res.TipHash)
 	res.Failures = append(res.Failures, lib.Failure{Case: res.Name, Ops: res.S.Ops(),
-		What:     "sync did not converge on the best chain offered by an honest reachable peer: " + why,
-		Expected: fmt.Sprintf("tip = block #%d (height %d) of node %d, all of its chain LONGEST_CHAIN", best.TipIdx, heightOf(r.tree, best.TipIdx), best.ID),
-		Observed: fmt.Sprintf("tip = block #%s (table height %d)", got, tipHeightOf(t, res.TipHash)),
+		What:      "sync did not converge on the best chain offered by an honest reachable peer: " + why,
+		Expected:  fmt.Sprintf("tip = block #%d (height %d) of node %d, all of its chain LONGEST_CHAIN", best.TipIdx, heightOf(r.tree, best.TipIdx), best.ID),
+		Observed:  fmt.Sprintf("tip = block #%s (table height %d)", got, tipHeightOf(t, res.TipHash)),
 		Signature: sig, Extra: map[string]any{"trace": r.traceStrings(), "notes": r.notes}})
 }
 
@@ -374,8 +374,16 @@ func scnKind(s *scn) string {
 
 type genOpts struct {
 	MaxLen int
-	BigLen int // thorough: occasionally a chain this long with cap 2000
+	BigLen int     // thorough: occasionally a chain this long with cap 2000
+	Fix    *linFix // thorough: the dimensions of the small matrix, fixed (nil = all drawn)
 }
+
+// linFix pins the matrix dimensions of genLinear (-1 = drawn at random).
+type linFix struct {
+	CpOff, CpMode, InitMode, NNodes, Cap, How, Loss, LossIdx int
+}
+
+func noFix() *linFix { return &linFix{-1, -1, -1, -1, -1, -1, -1, -1} }
 
 func linearParents(n int) []int {
 	p := make([]int, n)
@@ -425,6 +433,18 @@ func pickCheckpoints(rng *rand.Rand, L int, mode int) []int {
 // genLinear: 1..3 conformant nodes on ONE chain (full or lagging), any cap, any checkpoint list, any initial store,
 // announcements by inv or headers from one or several nodes, optional loss of a peer mid-sync.
 func genLinear(rng *rand.Rand, o genOpts, engine string) *scn {
+	fx := o.Fix
+	if fx == nil {
+		fx = noFix()
+	}
+	// draw always (one stream whatever is pinned), then apply the pin
+	pin := func(fixed, n int) int {
+		r := rng.Intn(n)
+		if fixed >= 0 {
+			return fixed
+		}
+		return r
+	}
 	L := 5 + rng.Intn(o.MaxLen-4)
 	big := o.BigLen > 0 && rng.Intn(6) == 0
 	if big {
@@ -443,15 +463,15 @@ func genLinear(rng *rand.Rand, o genOpts, engine string) *scn {
 	if rng.Intn(4) == 0 {
 		s.Sched = "free"
 	}
-	cpMode := rng.Intn(3)
+	cpMode := pin(fx.CpMode, 3)
 	if engine == "exp" {
-		cpMode = rng.Intn(4)
+		cpMode = pin(fx.CpMode, 4)
 	} else {
-		s.CpOff = rng.Intn(4) == 0
+		s.CpOff = pin(fx.CpOff, 4) == 0
 	}
 	s.Cps = pickCheckpoints(rng, L, cpMode)
 	// initial store
-	switch rng.Intn(3) {
+	switch pin(fx.InitMode, 3) {
 	case 1:
 		s.Init = seq(0, 1+rng.Intn(L-1))
 	case 2: // prefix + stale side branch: extra tree nodes off the main chain
@@ -475,13 +495,13 @@ func genLinear(rng *rand.Rand, o genOpts, engine string) *scn {
 			}
 		}
 	}
-	nNodes := 1 + rng.Intn(3)
+	nNodes := 1 + pin(fx.NNodes, 3)
 	if engine == "exp" {
 		nNodes = 1
 	}
 	full := rng.Intn(nNodes) // at least one node has the whole chain
 	for i := 0; i < nNodes; i++ {
-		n := scnNode{Path: seq(0, total), Pos: L, Cap: capAlphabet[rng.Intn(len(capAlphabet))], Dir: "out", Honest: true, CloseAt: -1, StallAt: -1}
+		n := scnNode{Path: seq(0, total), Pos: L, Cap: capAlphabet[pin(fx.Cap, len(capAlphabet))], Dir: "out", Honest: true, CloseAt: -1, StallAt: -1}
 		if big {
 			n.Cap = 2000
 		}
@@ -495,13 +515,14 @@ func genLinear(rng *rand.Rand, o genOpts, engine string) *scn {
 	}
 	// peer loss: one of the OTHER nodes closes or stalls at a message index
 	lossy := -1
-	if nNodes > 1 && rng.Intn(2) == 0 {
+	lossKind := pin(fx.Loss, 4) // 0,1 none; 2 close; 3 stall
+	lossIdx := pin(fx.LossIdx, 4)
+	if nNodes > 1 && lossKind >= 2 {
 		lossy = (full + 1 + rng.Intn(nNodes-1)) % nNodes
-		k := rng.Intn(4)
-		if rng.Intn(2) == 0 {
-			s.Nodes[lossy].CloseAt = k
+		if lossKind == 2 {
+			s.Nodes[lossy].CloseAt = lossIdx
 		} else {
-			s.Nodes[lossy].StallAt = k
+			s.Nodes[lossy].StallAt = lossIdx
 		}
 		s.Nodes[lossy].Honest = false
 	}
@@ -532,7 +553,7 @@ func genLinear(rng *rand.Rand, o genOpts, engine string) *scn {
 	}
 	// announcements: the nodes that have the whole chain learn the future blocks
 	how := "inv"
-	if engine == "exp" || rng.Intn(2) == 0 {
+	if pin(fx.How, 2) == 0 || engine == "exp" {
 		how = "headers"
 	}
 	left := future
@@ -562,8 +583,8 @@ func timePasses(s *scn) {
 // genFork: nodes on different branches of one tree; reply cap 2000; the service may start on a fork.
 func genFork(rng *rand.Rand, o genOpts, engine string) *scn {
 	L := 6 + rng.Intn(o.MaxLen-5)
-	f := 1 + rng.Intn(L-2)           // fork after height f (tree index f-1 is the last common block)
-	m := 1 + rng.Intn(L-f+2)         // length of the side branch
+	f := 1 + rng.Intn(L-2)   // fork after height f (tree index f-1 is the last common block)
+	m := 1 + rng.Intn(L-f+2) // length of the side branch
 	future := 1 + rng.Intn(2)
 	s := &scn{Engine: engine, Sched: "serial", Seed: rng.Int63n(1 << 30), Salt: rng.Uint32(), Parents: linearParents(L + future)}
 	side := []int{}
@@ -742,6 +763,52 @@ func runC06(c *Ctx) error {
 	}
 	start := time.Now()
 	rigErrs := 0
+	if c.Thorough {
+		// the full small matrix, once: {engine} x {checkpoints disabled, enabled} x {one, several, last at tip, none(exp)}
+		// x {genesis, prefix, stale fork} x peers 1..3 x cap {1,2,7,2000} x announce {headers, inv} x
+		// {no loss, close at index 0..3, stall at index 0..3}; everything else (lengths, lagging, order, …) drawn
+		mrng := lib.Rng(c.Seed, "c06-matrix")
+		n := 0
+		for _, engine := range []string{"legacy", "exp"} {
+			cpoffs, cpmodes, peers := []int{0, 1}, []int{0, 1, 2}, []int{0, 1, 2}
+			if engine == "exp" {
+				cpoffs, cpmodes, peers = []int{1}, []int{0, 1, 2, 3}, []int{0}
+			}
+			for _, cpoff := range cpoffs {
+				for _, cpm := range cpmodes {
+					for initm := 0; initm < 3; initm++ {
+						for _, np := range peers {
+							for capi := range capAlphabet {
+								for how := 0; how < 2; how++ {
+									losses := [][2]int{{0, 0}}
+									if np > 0 {
+										for k := 0; k < 4; k++ {
+											losses = append(losses, [2]int{2, k}, [2]int{3, k})
+										}
+									}
+									for _, ls := range losses {
+										om := genOpts{MaxLen: 24, Fix: &linFix{cpoff, cpm, initm, np, capi, how, ls[0], ls[1]}}
+										s := genLinear(mrng, om, engine)
+										name := fmt.Sprintf("matrix-%s-%d", engine, n)
+										n++
+										res := runScenario(name, s, oracleC06)
+										if res.Err != nil {
+											res = runScenario(name+"-retry", s, oracleC06)
+										}
+										reportScn(c, res, &rigErrs)
+										l.check(c, res)
+										c.R.Count("kind:matrix", 1)
+									}
+								}
+							}
+						}
+					}
+				}
+			}
+		}
+		c.R.Exhaustive = true
+		c.R.Notes = append(c.R.Notes, fmt.Sprintf("full small matrix: %d scenarios", n))
+	}
 	for i := 0; i < count && time.Since(start) < budget; i++ {
 		engine := "legacy"
 		if rng.Intn(3) == 0 {
